@@ -123,6 +123,14 @@ NdLawsEvOK(e) ==
     /\ \A s \in STRATS :
           /\ Len(e.res0[s]) = Len(e.lanes) /\ Len(e.res1[s]) = Len(e.lanes)
           /\ \A t \in DOMAIN e.lanes : e.res0[s][t] = SeqMin(e.lanes[t]) /\ e.res1[s][t] = SeqMax(e.lanes[t])
+    \* the NaN-skipping form with some elements replaced by NaN: minimum / maximum of what each lane keeps (-1: nothing kept)
+    /\ Has(e, "klanes") =>
+          /\ Len(e.sfailed) = 0
+          /\ \A s \in STRATS :
+                /\ Len(e.sres0[s]) = Len(e.klanes) /\ Len(e.sres1[s]) = Len(e.klanes)
+                /\ \A t \in DOMAIN e.klanes :
+                      IF Len(e.klanes[t]) = 0 THEN e.sres0[s][t] = -1 /\ e.sres1[s][t] = -1
+                      ELSE e.sres0[s][t] = SeqMin(e.klanes[t]) /\ e.sres1[s][t] = SeqMax(e.klanes[t])
 
 EventOK(e) ==
     CASE e.ev = "quantile" -> QuantileEvOK(e)
